@@ -290,6 +290,25 @@ def gate(ctx, binp, drv):
         hist[op] = N
         if nb:
             broken.append(f"{nb} scalar {op} disagreements")
+    # fused multiply-add (one rounding): random triples and cancellation triples c = -fl(a*b)
+    Cc = [f64_pattern(rng) for _ in range(N)]
+    prod = ans_of(iout, 2).split(",")
+    Cn = [(int(prod[j]) ^ (1 << 63)) if j < len(prod) and prod[j].isdigit() and ((int(prod[j]) >> 52) & 0x7FF) != 0x7FF else Cc[j][0] for j in range(N)]
+    fl = [f"0 ffma a={csv([x for x, _ in A])} b={csv([x for x, _ in B])} c={csv([x for x, _ in Cc])}",
+          f"1 ffma a={csv([x for x, _ in A])} b={csv([x for x, _ in B])} c={csv(Cn)}"]
+    fio, fmo = both(fl, [l.replace(" ", " fft64 ", 1) for l in fl])
+    for i in range(2):
+        a, b = ans_of(fio, i).split(","), ans_of(fmo, i).split(",")
+        nb = 0
+        for j in range(N):
+            ctx.count_case(("fft64-scalar", "ffma", A[j][1], B[j][1], "cancel" if i else Cc[j][1]), True)
+            if not (j < len(a) and j < len(b) and a[j] == b[j]):
+                nb += 1
+                if nb <= 2:
+                    disagree("f64 fma: hardware and binary64 model differ", f"ffma a={A[j][0]} b={B[j][0]} c={(Cn[j] if i else Cc[j][0])}", a[j] if j < len(a) else "missing", b[j] if j < len(b) else "missing", True)
+        if nb:
+            broken.append(f"{nb} scalar ffma disagreements")
+    hist["ffma"] = 2 * N
     # conversions
     X = [i64_value(rng) for _ in range(N)]
     P = [f64_pattern(rng) for _ in range(N)]
@@ -307,8 +326,23 @@ def gate(ctx, binp, drv):
                     disagree("f64 conversion: implementation and model differ", " ".join(l.split(" ")[1:3]) + f" x={src[j][0]}", a[j] if j < len(a) else "missing", b[j] if j < len(b) else "missing", True)
         if nb:
             broken.append(f"{nb} conversion disagreements in {l[:20]}")
+    # FFT64Avx conversions: range assertion of reim_from_znx_i64_bnd50_fma, magic-constant lanes + scalar tail; bnd63 shift conversion
+    Xa = [rng.choice([0, 1, -1, (1 << 50) - 1, -(1 << 50) + 1, rng.range(-(1 << 50) + 1, (1 << 50) - 1), rng.range(-1000, 1000)]) for _ in range(N + 3)]
+    aconv = [f"0 from be=avx x={csv(Xa)}", "1 from be=avx x=1125899906842624,0,0,0", "2 from be=avx x=3,-1125899906842624", "3 from be=avx x=5,-7,9"] + \
+            [f"{4 + i} to be=avx k={k} x={csv([x for x, _ in P][:N - (i % 4)])}" for i, k in enumerate((0, 1, 2, 5, 15))]
+    iout, mout = both(aconv, [l.replace(" ", " fft64 ", 1) for l in aconv])
+    for i, l in enumerate(aconv):
+        a, b = ans_of(iout, i), ans_of(mout, i)
+        ctx.count_case(("fft64avx-conv", i), True)
+        if a != b:
+            av, bv = a.split(","), b.split(",")
+            j = next((j for j in range(min(len(av), len(bv))) if av[j] != bv[j]), 0)
+            broken.append(f"avx conversion {l[:24]}")
+            disagree("FFT64Avx conversion: implementation and model differ", " ".join(l.split(" ")[1:4]) + f" first differing index {j}", av[j] if j < len(av) else a[:80], bv[j] if j < len(bv) else b[:80], True)
     hist["from"] = N
     hist["to"] = 4 * N
+    hist["avx-from"] = N + 3
+    hist["avx-to"] = 5 * N
     ctx.samples.append({"request": f"fft64 fmul a={A[0][0]} b={B[0][0]}"})
 
     # ---------------------------------------------------------------- 2. tables: dump, positions, numerical accuracy
@@ -385,35 +419,38 @@ def gate(ctx, binp, drv):
                 x = coeff_vec(rng, n, bits, cls)
                 cases.append(("xform", k, cls, bits, x))
     # run from -> fft -> ifft -> to chain, each stage compared bit for bit (the implementation's output feeds the next stage on both sides)
+    # every case runs on both back ends (be=avx: FFT64Avx kernels / Model/Fft64Avx.lean); |x| ≤ 2^50-1 there (range assertion)
+    cases = [c + ("ref",) for c in cases] + [("xform", c[1], c[2], min(c[3], 50), [max(-(1 << 50) + 1, min((1 << 50) - 1, v)) for v in c[4]], "avx") for c in cases]
     stage_in = [csv(c[4]) for c in cases]
     nb_total = 0
     for stage in ("from", "fft", "ifft", "to"):
         hl, dl = [], []
         for i, c in enumerate(cases):
             k = c[1]
+            be = " be=avx" if c[5] == "avx" else ""
             if stage == "from":
-                hl.append(f"{i} from x={stage_in[i]}")
-                dl.append(f"{i} fft64 from x={stage_in[i]}")
+                hl.append(f"{i} from{be} x={stage_in[i]}")
+                dl.append(f"{i} fft64 from{be} x={stage_in[i]}")
             elif stage == "to":
-                hl.append(f"{i} to k={k} x={stage_in[i]}")
-                dl.append(f"{i} fft64 to k={k} x={stage_in[i]}")
+                hl.append(f"{i} to{be} k={k} x={stage_in[i]}")
+                dl.append(f"{i} fft64 to{be} k={k} x={stage_in[i]}")
             else:
-                hl.append(f"{i} {stage} k={k} x={stage_in[i]}")
-                dl.append(f"{i} fft64 {stage} k={k} omg={omg(k, 0 if stage == 'fft' else 1)} x={stage_in[i]}")
+                hl.append(f"{i} {stage}{be} k={k} x={stage_in[i]}")
+                dl.append(f"{i} fft64 {stage}{be} k={k} omg={omg(k, 0 if stage == 'fft' else 1)} x={stage_in[i]}")
         iout, mout = both(hl, dl)
         nxt = []
         for i, c in enumerate(cases):
             a, b = ans_of(iout, i), ans_of(mout, i)
             nontriv = c[2] != "zero"
-            ctx.count_case(("fft64", stage, c[1], c[2], c[3]), nontriv)
-            hist[stage + "-vec"] = hist.get(stage + "-vec", 0) + 1
+            ctx.count_case(("fft64", stage, c[1], c[2], c[3], c[5]), nontriv)
+            hist[stage + "-vec-" + c[5]] = hist.get(stage + "-vec-" + c[5], 0) + 1
             if a != b:
                 nb_total += 1
                 if nb_total <= 3:
                     av, bv = a.split(","), b.split(",")
                     first = next((j for j in range(min(len(av), len(bv))) if av[j] != bv[j]), -1)
-                    disagree(f"fft64 {stage}: implementation and model differ (bit patterns)", hl[i].split(" ", 1)[1], a, b, True,
-                             {"k": c[1], "class": c[2], "first_differing_index": first})
+                    disagree(f"fft64 {stage} ({c[5]}): implementation and model differ (bit patterns)", hl[i].split(" ", 1)[1], a, b, True,
+                             {"k": c[1], "class": c[2], "first_differing_index": first, "backend": c[5]})
             nxt.append(a)
         stage_in = nxt
         if nb_total:
@@ -437,14 +474,15 @@ def gate(ctx, binp, drv):
             va = [f64_pattern(rng)[0] for _ in range(2 * m)] if rng.below(2) else [rng.range(1000, 1060) << 52 | rng.below(1 << 52) | (rng.below(2) << 63) for _ in range(2 * m)]
             vb = [rng.range(1000, 1060) << 52 | rng.below(1 << 52) | (rng.below(2) << 63) for _ in range(2 * m)]
             vr = [rng.range(1000, 1080) << 52 | rng.below(1 << 52) | (rng.below(2) << 63) for _ in range(2 * m)]
-            i = len(hl)
-            if rng.below(2):
-                hl.append(f"{i} mul a={csv(va)} b={csv(vb)}")
-                metas.append(("mul", k))
-            else:
-                hl.append(f"{i} addmul r={csv(vr)} a={csv(va)} b={csv(vb)}")
-                metas.append(("addmul", k))
-            dl.append(hl[-1].replace(" ", " fft64 ", 1))
+            for be in ("", " be=avx"):
+                i = len(hl)
+                if rng.below(2):
+                    hl.append(f"{i} mul{be} k={k} a={csv(va)} b={csv(vb)}")
+                    metas.append(("mul" + be[4:], k))
+                else:
+                    hl.append(f"{i} addmul{be} k={k} r={csv(vr)} a={csv(va)} b={csv(vb)}")
+                    metas.append(("addmul" + be[4:], k))
+                dl.append(hl[-1].replace(" ", " fft64 ", 1))
     iout, mout = both(hl, dl)
     nb = 0
     for i, mt in enumerate(metas):
@@ -475,12 +513,28 @@ def gate(ctx, binp, drv):
             Av = [coeff_vec(rng, n, ba, cls_a) for _ in range(rows)]
             Bv = [coeff_vec(rng, n, bb, cls_b) for _ in range(rows)]
             pipe_cases.append((op, k, rows, tb, ba, bb, cls_a, cls_b, Av, Bv))
+            # the same product on FFT64Avx (operands inside the 2^50-1 assertion), sometimes through the 2-column kernels
+            if ba <= 50 and bb <= 50:
+                opa = op if rng.below(3) else rng.choice(["vmp2", "vmp2o"])
+                Av2 = Av if opa == op else [coeff_vec(rng, n, ba, cls_a) for _ in range(max(rows, 1))]
+                Bv2 = Bv if opa == op else [coeff_vec(rng, n, bb, cls_b) for _ in range(max(rows, 1))]
+                pipe_cases.append((opa + ":avx", k, len(Av2), tb, ba, bb, cls_a, cls_b, Av2, Bv2))
+            elif rng.below(2):
+                pipe_cases.append((op + ":avx", k, rows, tb, ba, bb, cls_a, cls_b, Av, Bv))   # out of range: panic on both sides
     hl, dl = [], []
+    b2s = {}
     for i, (op, k, rows, tb, ba, bb, ca, cb, Av, Bv) in enumerate(pipe_cases):
         sa = ";".join(csv(v) for v in Av)
         sb = ";".join(csv(v) for v in Bv)
-        hl.append(f"{i} {op} k={k} a={sa} b={sb}")
-        dl.append(f"{i} fft64 {op} k={k} omg={omg(k, 0)} iomg={omg(k, 1)} a={sa} b={sb}")
+        o, _, be = op.partition(":")
+        ext = " be=avx" if be else ""
+        if o.startswith("vmp2"):
+            B2 = [coeff_vec(rng, 2 << k, bb, rng.choice(CLASSES)) for _ in Av]
+            b2s[i] = B2
+            ext += " b2=" + ";".join(csv(v) for v in B2) + (" off=1" if o == "vmp2o" else "")
+            o = "vmp2"
+        hl.append(f"{i} {o} k={k} a={sa} b={sb}{ext}")
+        dl.append(f"{i} fft64 {o} k={k} omg={omg(k, 0)} iomg={omg(k, 1)} a={sa} b={sb}{ext}")
     iout, mout = both(hl, dl)
     nb = 0
     exact_hist = {}
@@ -499,7 +553,25 @@ def gate(ctx, binp, drv):
                 disagree(f"fft64 {op}: implementation and model differ", hl[i].split(" ", 1)[1], a, b, True, {"k": k, "rows": rows, "classes": [ca, cb], "total_bits": tb})
             continue
         if a.startswith("panic") or a.startswith("err"):
-            exact_hist.setdefault("panic(n<8)", [0, 0])[0] += 1
+            exact_hist.setdefault("panic(n<8 | avx range assertion)", [0, 0])[0] += 1
+            continue
+        if i in b2s:
+            # two output limbs (or the second only): oracle on each
+            parts = a.split("|")
+            exs = []
+            for Bx in ([b2s[i]] if len(parts) == 1 else [Bv, b2s[i]]):
+                ex = [0] * n
+                for u, v in zip(Av, Bx):
+                    ex = [x + y for x, y in zip(ex, negacyclic(u, v))]
+                exs.append(csv(ex))
+            h = exact_hist.setdefault(f"vmp2 <=2^{max(20, (bound - 1).bit_length()) if bound else 0:02d}", [0, 0])
+            h[0] += 1
+            if parts != exs:
+                h[1] += 1
+                if bound <= (1 << MUST_BE_EXACT_BITS):
+                    ctx.oracle_failures += 1
+                    broken.append(f"fft64 vmp2 inexact inside the domain (k={k})")
+                    disagree("FFT64 vmp (2 output limbs) differs from the exact product inside the magnitude domain", hl[i].split(" ", 1)[1][:3000], a, "|".join(exs), True, {"k": k, "rows": rows})
             continue
         # oracle: exact negacyclic product
         if k <= (9 if quick else 12):
@@ -522,6 +594,131 @@ def gate(ctx, binp, drv):
     ctx.cov["fft64_pipeline_exactness_by_bound"] = {k: {"cases": v[0], "inexact": v[1]} for k, v in sorted(exact_hist.items())}
     if pipe_cases:
         ctx.samples.append({"request": f"fft64 {pipe_cases[0][0]} k={pipe_cases[0][1]} rows={pipe_cases[0][2]} classes={pipe_cases[0][6]}/{pipe_cases[0][7]} total_bits={pipe_cases[0][3]}"})
+
+    # ---------------------------------------------------------------- 3b. convolution path (both back ends)
+    def col(n, size, bits, cls):
+        return [coeff_vec(rng, n, bits, cls) for _ in range(size)]
+
+    def sc(c):
+        return ";".join(csv(v) for v in c)
+
+    def bivariate(a, b, n):
+        """exact limbs of the bivariate product: coefficient kk = Σ_j a[kk-j] ⋆ b[j]"""
+        out = {}
+        for i, x in enumerate(a):
+            for j, y in enumerate(b):
+                p = negacyclic(x, y)
+                out[i + j] = [u + v for u, v in zip(out.get(i + j, [0] * n), p)]
+        return out
+
+    def prep(a, size, mask, n):
+        ms = min(size, len(a))
+        outp = []
+        for j in range(size):
+            if j + 1 == ms:
+                outp.append([((x & mask) + (1 << 63)) % (1 << 64) - (1 << 63) for x in a[j]])
+            elif j < ms:
+                outp.append(list(a[j]))
+            else:
+                outp.append([0] * n)
+        return outp
+
+    chl, cdl, cmeta = [], [], []
+    for k in [k for k in Ks if k in tabs and 2 <= k <= (7 if quick else 10)]:
+        n = 2 << k
+        for _ in range(4 if quick else 8):
+            asz, bsz = rng.range(1, 4), rng.range(1, 4)
+            sl, sr, rs, off = rng.range(1, 5), rng.range(1, 5), rng.range(1, 7), rng.range(0, 6)
+            bits = rng.choice([6, 12, 16, 18])
+            cls = rng.choice(["random", "random", "allmax", "alt", "sparse"])
+            ml = rng.choice([-1, -1, -(1 << rng.range(1, 10)), 0xFFFF])
+            mr = rng.choice([-1, -(1 << 3)])
+            for be in ("ref", "avx"):
+                a, b = col(n, asz, bits, cls), col(n, bsz, bits, cls)
+                base = f"be={be} k={k} rs={rs} off={off} sl={sl} sr={sr} ml={ml} mr={mr}"
+                i = len(chl)
+                chl.append(f"{i} cnv {base} a={sc(a)} b={sc(b)}")
+                cdl.append(f"{i} fft64 cnv {base} omg={omg(k, 0)} iomg={omg(k, 1)} a={sc(a)} b={sc(b)}")
+                cmeta.append(("cnv", be, k, rs, off, sl, sr, ml, mr, [a], [b], cls, bits))
+                a1, b1 = col(n, asz, bits, cls), col(n, bsz, bits, cls)
+                i = len(chl)
+                chl.append(f"{i} cnvp {base} a0={sc(a)} a1={sc(a1)} b0={sc(b)} b1={sc(b1)}")
+                cdl.append(f"{i} fft64 cnvp {base} omg={omg(k, 0)} iomg={omg(k, 1)} a0={sc(a)} a1={sc(a1)} b0={sc(b)} b1={sc(b1)}")
+                cmeta.append(("cnvp", be, k, rs, off, sl, sr, ml, mr, [a, a1], [b, b1], cls, bits))
+                ab, cb = rng.choice([12, 20, 31, 33, 62]), rng.choice([12, 20, 31, 40, 62])
+                ac = col(n, asz, ab, "random")
+                c = [rng.range(-(1 << cb), 1 << cb) for _ in range(bsz)]
+                i = len(chl)
+                chl.append(f"{i} cnvc be={be} k={k} rs={rs} off={off} a={sc(ac)} c={csv(c)}")
+                cdl.append(chl[-1].replace(" ", " fft64 ", 1))
+                cmeta.append(("cnvc", be, k, rs, off, 0, 0, -1, -1, [ac], [c], "random", max(ab, cb)))
+    ciout, cmout = both(chl, cdl)
+    nb = 0
+    cnv_oracle = {"checked": 0, "inexact": 0, "avx_by_const_32bit_truncation": 0}
+    for i, mt in enumerate(cmeta):
+        a_, b_ = ans_of(ciout, i), ans_of(cmout, i)
+        op, be, k, rs, off, sl, sr, ml, mr, A_, B_, cls, bits = mt
+        n = 2 << k
+        ctx.count_case(("fft64-cnv", op, be, k, cls, bits, rs, off), cls != "zero")
+        hist[f"{op}:{be}"] = hist.get(f"{op}:{be}", 0) + 1
+        if a_ != b_:
+            nb += 1
+            if nb <= 3:
+                disagree(f"fft64 {op} ({be}): implementation and model differ", chl[i].split(" ", 1)[1][:3000], a_, b_, True, {"k": k})
+            continue
+        if a_.startswith(("panic", "err")):
+            continue
+        # oracle: the exact bivariate product (prepared operands, cnv_offset, truncation)
+        got = [list(map(int, l.split(","))) for l in a_.split(";")]
+        if op == "cnvc":
+            a0, cst = A_[0], B_[0]
+            bound = len(a0) + len(cst) - 1
+            ms, o2 = min(rs, bound), min(off, bound)
+            ex = []
+            for kk in range(rs):
+                acc = [0] * n
+                if kk < ms:
+                    for j in range(len(cst)):
+                        if 0 <= kk + o2 - j < len(a0):
+                            acc = [x + cst[j] * y for x, y in zip(acc, a0[kk + o2 - j])]
+                ex.append([(x + (1 << 63)) % (1 << 64) - (1 << 63) for x in acc])
+            cnv_oracle["checked"] += 1
+            if got != ex:
+                if be == "avx" and bits > 31:
+                    cnv_oracle["avx_by_const_32bit_truncation"] += 1
+                    key = "poulpy-cpu-avx/src/fft64/convolution.rs:i64_convolution_by_const_*_avx:operands-beyond-i32"
+                    w = {"request": chl[i].split(" ", 1)[1][:2000], "implementation": a_[:600], "exact": ";".join(csv(l) for l in ex)[:600],
+                         "replay": "printf '0 <request>\\n' | harness/target/release/pvh fft64"}
+                    if ctx.match_known(key) is not None:
+                        ctx.violation("FFT64Avx cnv_by_const_apply multiplies only the low 32 bits of its operands (_mm256_mul_epi32)", w, True, key=key)
+                    else:
+                        # proposed known finding (docs/C07.md): recorded as an observation until the coordinator lists the key
+                        cnv_oracle.setdefault("avx_by_const_witness", w)
+                else:
+                    ctx.oracle_failures += 1
+                    broken.append(f"cnv_by_const ({be}) differs from the exact product")
+                    disagree(f"cnv_by_const_apply ({be}) differs from the exact i64 product", chl[i].split(" ", 1)[1][:3000], a_, ";".join(csv(l) for l in ex), True)
+            continue
+        if op == "cnv":
+            pa, pb = prep(A_[0], sl, ml, n), prep(B_[0], sr, mr, n)
+        else:
+            pa0, pa1 = prep(A_[0], sl, ml, n), prep(A_[1], sl, ml, n)
+            pb0, pb1 = prep(B_[0], sr, mr, n), prep(B_[1], sr, mr, n)
+            pa = [[x + y for x, y in zip(u, v)] for u, v in zip(pa0, pa1)]
+            pb = [[x + y for x, y in zip(u, v)] for u, v in zip(pb0, pb1)]
+        biv = bivariate(pa, pb, n)
+        bound = len(pa) + len(pb) - 1
+        ms, o2 = min(rs, bound), min(off, bound)
+        ex = [biv.get(kk + o2, [0] * n) if kk < ms else [0] * n for kk in range(rs)]
+        cnv_oracle["checked"] += 1
+        if got != ex:
+            cnv_oracle["inexact"] += 1
+            ctx.oracle_failures += 1
+            broken.append(f"fft64 {op} ({be}) differs from the exact bivariate product (k={k}, {bits} bits)")
+            disagree(f"FFT64 {op} ({be}) differs from the exact bivariate convolution inside the magnitude domain", chl[i].split(" ", 1)[1][:3000], a_[:1000], ";".join(csv(l) for l in ex)[:1000], True)
+    if nb:
+        broken.append(f"{nb} convolution disagreements")
+    ctx.cov["fft64_cnv_oracle"] = cnv_oracle
 
     # ---------------------------------------------------------------- 4. model-only worst-case search (evidence)
     search = {}
